@@ -452,6 +452,20 @@ def c_memcpy(ex, st, n, args):
     t = src_of(ex.tu, n)
     ex.bounds_oblig(d, k.t, st, n, 'memcpy destination: ' + t)
     ex.bounds_oblig(s, k.t, st, n, 'memcpy source: ' + t)
+    for a_, b_ in ((s, d), (d, s)):
+        # a copy between a matrix buffer and a temporary moves whole elements
+        # of the matrix's typecode
+        if isinstance(a_, PtrV) and a_.region is not None and \
+                a_.region.kind == 'matbuf' and a_.region.owner is not None \
+                and isinstance(b_, PtrV) and b_.region is not a_.region:
+            o = a_.region.owner
+            es = z3.If(o.id == 2, 16, 8)
+            ex.oblige(st, 'copy-granularity', z3.And(
+                k.t % es == 0, a_.off % es == 0,
+                b_.off % es == 0 if isinstance(b_.off, z3.ExprRef) or
+                isinstance(b_.off, int) else True), n,
+                text='memcpy moves whole elements of %s: %s' % (o.name, t))
+            break
     if isinstance(d, PtrV) and d.region is not None:
         st.stores.append((d.region, d.off, k.t, list(st.path()),
                           n.get('line')))
